@@ -6,6 +6,10 @@ pub use tauri_typegen::models::TypeStructure;
 
 // ---------------------------------------------------------------- reporting protocol
 pub struct Report {
+    /// set when the harness found that it does not understand the shape of the generated text (its own parsers fail on a
+    /// known-good probe): failures are then reported as UNDECIDED, never as violations
+    pub downgrade: bool,
+    pub undecided: Vec<(String, String, String)>,
     pub evals: u64,
     pub distinct: std::collections::HashSet<u64>,
     pub counts: HashMap<String, u64>,
@@ -39,7 +43,7 @@ impl Report {
             (Ok(f), Ok(i)) => Some((f, i)),
             _ => None,
         };
-        Report { evals: 0, distinct: Default::default(), counts: HashMap::new(), fails: Vec::new(), replay }
+        Report { downgrade: false, undecided: Vec::new(), evals: 0, distinct: Default::default(), counts: HashMap::new(), fails: Vec::new(), replay }
     }
     pub fn depth() -> usize {
         std::env::var("VERIF_DEPTH").ok().and_then(|s| s.parse().ok()).unwrap_or(4)
@@ -69,6 +73,10 @@ impl Report {
             Err(e) => Some(format!("panic: {}", e.downcast_ref::<String>().cloned().or_else(|| e.downcast_ref::<&str>().map(|s| s.to_string())).unwrap_or_default())),
         };
         if let Some(msg) = fail {
+            if (self.downgrade && !msg.starts_with("panic:")) || msg.starts_with("UNPARSED:") {
+                if self.undecided.len() < 5 { self.undecided.push((check.to_string(), input.to_string(), msg)); }
+                return;
+            }
             let c = self.counts.entry(check.to_string()).or_insert(0);
             *c += 1;
             // panics are reported even behind three ordinary failures of the same check (C15 counts them from every check)
@@ -81,7 +89,8 @@ impl Report {
         println!("DISTINCT {}", self.distinct.len());
         for (f, c) in &self.counts { println!("PANICCOUNT fn={} count={}", f, c); }
         for (f, i, m) in &self.fails { println!("FAIL fn={} input={:?} msg={:?}", f, i, m); }
-        std::process::exit(if self.fails.is_empty() { 0 } else { 1 })
+        for (f, i, m) in &self.undecided { println!("UNDECIDED fn={} input={:?} msg={:?}", f, i, m); }
+        std::process::exit(if !self.fails.is_empty() { 1 } else if !self.undecided.is_empty() { 2 } else { 0 })
     }
 }
 
